@@ -305,3 +305,18 @@ CHECKS["C07"]["harnesses"].append(
     {"probe": "core", "harness": "Harness_C07_sharedDocument", "setup": "Setup_C07_sharedDocument", "reach": ["c07.doc.sequential", "c07.doc.concurrent"], "workers": 8, "race": True,
      "configs_quick": ["single"], "configs_thorough": ["single", "follow"], "quick": {"params": {"concq": 2}, "sample_models": 12}, "thorough": {"workers": 14, "sample_models": 24, "sample_every": 97},
      "what": "generated executor + executor.Executor with a query cache: the same text under different variables (6 documents with variable-dependent merged selections), sequentially (cached document frozen after the first request) and concurrently (every explored schedule, vector-clock race check): each response equals the reference for that request alone"})
+
+CHECKS["C11"]["harnesses"].append(
+    dict(_WS, harness="Harness_C11_tickers", reach=["c11.tickers", "c11.tickers.op"], race=True, sched_confirm=True,
+         quick={"params": {"ticks": 1}, "sample_models": 12, "sample_every": 11}, thorough={"params": {"ticks": 2}, "workers": 14, "sample_models": 24, "sample_every": 211},
+         what="wsConnection.run with keep-alive / pong-only / ping-pong timers (ticks at any scheduling point), 0..1 long-lived operation, ended by server context cancellation at any point or by the peer: goroutines end, operation cancelled and terminated, close callback once, no concurrent frame writes, race check"))
+
+CHECKS["C04"]["harnesses"].append(
+    {"probe": "core", "harness": "Harness_C04_deferFaults", "setup": "Setup_C04_deferFaults", "reach": ["c04.defer.compared", "c04.defer.panic"], "workers": 6, "sched": "first",
+     "configs_quick": ["single"], "configs_thorough": ["single", "follow", "wl1"], "quick": {"sample_models": 16, "sample_every": 5}, "thorough": {"params": {"budget": 2}, "sample_models": 24, "sample_every": 37, "workers": 12},
+     "what": "a single [pair of] fault(s) (error / panic / alien value; resolver or directive) in 4 operations with active @defer fragments, inside and outside the deferred groups: merged payloads = defer-aware reference, one error per failure, recover hook once per panic"})
+
+CHECKS["C05"]["harnesses"].append(
+    {"probe": "core", "harness": "Harness_C05_deferFaults", "setup": "Setup_C05_deferFaults", "reach": ["c05.deferfaults"], "workers": 6, "sched": "first",
+     "configs_quick": ["single"], "configs_thorough": ["single", "follow", "wl1"], "quick": {"sample_models": 12, "sample_every": 7}, "thorough": {"params": {"budget": 2}, "sample_models": 24, "sample_every": 41, "workers": 12},
+     "what": "8 @defer operations with one [two] resolver positions failing or null (incl. a non-null sibling that nulls the object carrying a deferred group), drained without cancellation: the response function ends the sequence (deadlock detection), last payload has no hasNext, no goroutine left"})
